@@ -1,6 +1,7 @@
 /* libFuzzer target for C02 / C03: bytes are decoded into an op list (set / rem / get / mem / resize 0 / reserve / copy /
- * assign / iterate) over a Table<Int,Int> and a Tree<Int,Int> driven in lock step; the oracle is a naive association
- * array.  Keys come from a collision family (same residue modulo every table size up to 1259) plus small keys, so that
+ * assign / rebuild through the constructor's initial bindings / resize below len / set with a value that lives in the
+ * container itself / get and rem of absent keys / iterate) over a Table<Int,Int> and a Tree<Int,Int> driven in lock step;
+ * the oracle is a naive association array.  Keys come from a collision family (same residue modulo every table size up to 1259) plus small keys, so that
  * coverage-guided mutation explores displacement, wrap-around, backward shifts and the red-black fix-up cases.
  * After every op: len, mem/get over the key universe, each key iterated exactly once (Tree: strictly monotone,
  * backward walk = reverse).  Traps on a violation. */
@@ -61,6 +62,20 @@ static void check(var c, bool tree, const char* tag) {
   }
 }
 
+/* Int objects that outlive a block (constructor argument lists): $I() temporaries die at the end of their block */
+static struct { struct Header h; struct Int v; } ibuf[2 * NK + 2];
+static var mk_int(int slot, int64_t v) {
+  var o = header_init(&ibuf[slot].h, Int, AllocStack);
+  ((struct Int*)o)->val = v;
+  return o;
+}
+
+static void expect_key_error(var c, int64_t k, bool do_rem, const char* what) {
+  var volatile e1 = NULL;
+  try { if (do_rem) { rem(c, $I(k)); } else { get(c, $I(k)); } } catch (e) { e1 = e; }
+  if (e1 isnt KeyError) { fail(what, k, 0); }
+}
+
 int LLVMFuzzerInitialize(int* argc, char*** argv) {
   static var bottom = NULL;
   new_raw(GC, $R(&bottom));
@@ -82,16 +97,15 @@ int LLVMFuzzerTestOneInput(const uint8_t* data, size_t size) {
   var r = new_raw(Tree, Int, Int);
   int nops = 1 + u8() % 48;
   for (int oi = 0; oi < nops; oi++) {
-    unsigned op = u8() % 10; int i = (int)(u8() % NK);
+    unsigned op = u8() % 14; int i = (int)(u8() % NK);
     var volatile exc = NULL;
     try {
       if (op <= 3) { int64_t v = (int64_t)(int8_t)u8(); set(t, $I(keys[i]), $I(v)); set(r, $I(keys[i]), $I(v)); present[i] = true; vals[i] = v; }
       else if (op <= 5) {
         if (present[i]) { rem(t, $I(keys[i])); rem(r, $I(keys[i])); present[i] = false; }
         else {
-          var volatile e1 = NULL, e2 = NULL;
-          try { rem(t, $I(keys[i])); } catch (e) { e1 = e; }
-          if (e1 isnt KeyError) { fail("Table rem of an absent key did not raise KeyError", keys[i], 0); }
+          expect_key_error(t, keys[i], true, "Table rem of an absent key did not raise KeyError");
+          expect_key_error(r, keys[i], true, "Tree rem of an absent key did not raise KeyError");
         }
       }
       else if (op is 6) { resize(t, 0); resize(r, 0); for (int k = 0; k < NK; k++) { present[k] = false; } }
@@ -101,11 +115,47 @@ int LLVMFuzzerTestOneInput(const uint8_t* data, size_t size) {
         set(t, $I(123456789), $I(1)); set(r, $I(123456789), $I(1));
         del(t); del(r); t = t2; r = r2;
       }
-      else {
+      else if (op is 9) {
         var t2 = new_raw(Table, Int, Int); var r2 = new_raw(Tree, Int, Int);
         set(t2, $I(5), $I(5)); set(r2, $I(5), $I(5));
         assign(t2, r); assign(r2, t);             /* cross-kind assignment */
         del_raw(t); del_raw(r); t = t2; r = r2;
+      }
+      else if (op is 10) {
+        /* both containers are rebuilt through the constructor's initial bindings: new(Table, Int, Int, k1, v1, ...);
+        ** the byte chooses where in the universe the argument list starts */
+        var items[2 * NK + 3]; int n = 0; int from = (int)(u8() % NK);
+        items[n++] = Int; items[n++] = Int;
+        for (int q = 0; q < NK; q++) {
+          int k = (from + q) % NK;
+          if (present[k]) { items[n] = mk_int(n - 2, keys[k]); n++; items[n] = mk_int(n - 2, vals[k]); n++; }
+        }
+        items[n] = Terminal;
+        var at = $(Tuple, items);
+        var t2 = new_raw_with(Table, at); var r2 = new_raw_with(Tree, at);
+        del_raw(t); del_raw(r); t = t2; r = r2;
+      }
+      else if (op is 11) {
+        /* fewer slots than bindings: refused (FormatError in this build) or ignored - the bindings stay */
+        size_t n = 0; for (int k = 0; k < NK; k++) { n += present[k]; }
+        if (n >= 2) {
+          var volatile e1 = NULL;
+          try { resize(t, 1 + u8() % (n - 1)); } catch (e) { e1 = e; }
+        }
+      }
+      else if (op is 12) {
+        /* the value argument is the embedded value of another key of the same container */
+        int j = (int)(u8() % NK);
+        if (present[j] and j isnt i) {
+          set(t, $I(keys[i]), get(t, $I(keys[j]))); set(r, $I(keys[i]), get(r, $I(keys[j])));
+          present[i] = true; vals[i] = vals[j];
+        }
+      }
+      else {
+        if (not present[i]) {
+          expect_key_error(t, keys[i], false, "Table get of an absent key did not raise KeyError");
+          expect_key_error(r, keys[i], false, "Tree get of an absent key did not raise KeyError");
+        }
       }
     } catch (e) { exc = e; }
     if (exc) { fail("operation raised", (int64_t)op, keys[i]); }
